@@ -1456,3 +1456,4 @@ group("scalar_codec", vc_scalar_codec, [(SCAL, "NumpyScalar._to_buffer"), (SCAL,
 
 
 from . import types2_vc  # noqa: E402,F401  (registers more groups)
+from . import types3_vc  # noqa: E402,F401  (C19/C20 struct groups)
